@@ -181,3 +181,162 @@ Theorem static_map_key_alias_refuted :
   exists l e, sm_read ext_handshake l = Ok e [] /\ nth 2 e None = Some (SObj (VInt 1) false) /\
     l = [100; 57; 58; 109; 58; 58; 117; 116; 95; 112; 101; 120; 105; 49; 101; 101].
 Proof. eexists; eexists. repeat split; vm_compute; reflexivity. Qed.
+
+(* ---- faithfulness at segment level: every stored value is read from a segment of the input and
+   is what that segment denotes (plain entries: the liberal bencode relation `denotes` of
+   ProofsFaith.v; raw entries: the bytes of the segment the skip reader delimits) *)
+Definition seg_here (vb : bytes) (sv : sval) : Prop :=
+  match sv with
+  | SObj v _ => denotes vb v
+  | SRaw RawAny b => b = vb
+  | SRaw RawS b => exists ds, all_digits ds /\ vb = ds ++ ch_colon :: b
+  | SRaw RawL b => exists c0 cl, ch_l <= c0 /\ vb = c0 :: b ++ [cl]
+  | SRaw RawM b => exists c0 cl, ch_d <= c0 /\ vb = c0 :: b ++ [cl]
+  end.
+
+Definition seg_of (L : bytes) (sv : sval) : Prop :=
+  exists pre vb suf, L = pre ++ vb ++ suf /\ seg_here vb sv.
+
+Definition from_input (L : bytes) (e : entries) : Prop :=
+  forall i sv, nth_error e i = Some (Some sv) -> seg_of L sv.
+
+Definition suffix_of (L l : bytes) : Prop := exists d, L = d ++ l.
+
+Lemma suffix_app L p l : suffix_of L (p ++ l) -> suffix_of L l.
+Proof. intros (d & ->). exists (d ++ p). rewrite <- app_assoc. reflexivity. Qed.
+
+Lemma suffix_cons L c l : suffix_of L (c :: l) -> suffix_of L l.
+Proof. apply (suffix_app L [c] l). Qed.
+
+Lemma suffix_small L l : small L -> suffix_of L l -> small l.
+Proof. intros Hs (d & ->). eapply small_suffix; exact Hs. Qed.
+
+Lemma small_short l : small l -> short l.
+Proof. unfold small, short, two31, two32. lia. Qed.
+
+Lemma read_value_spec raw l o r : small l -> read_value raw l = Ok o r ->
+  exists vb, l = vb ++ r /\ match o with Some sv => seg_here vb sv | None => True end.
+Proof.
+  intros Hs. unfold read_value. destruct raw as [k|].
+  - destruct (raw_c k l) as [[b|] rest| | |] eqn:E; try discriminate; intros H; inversion H; subst;
+      destruct (raw_c_exact _ _ _ _ (small_short _ Hs) E) as (_ & pre & -> & Hp); exists pre; (split; [reflexivity|]); [|exact I].
+    destruct k; cbn [seg_here]; exact Hp.
+  - destruct (decode_c l) as [[v fl] rest| | |] eqn:E; try discriminate. intros H; inversion H; subst.
+    destruct (decode_c_faithful _ _ _ _ Hs E) as (pre & -> & Hd). exists pre. split; [reflexivity|exact Hd].
+Qed.
+
+Lemma set_nth_nth_error {A} : forall (l : list A) i x l', set_nth l i x = Some l' ->
+  forall j, nth_error l' j = if Nat.eqb j i then Some x else nth_error l j.
+Proof.
+  induction l as [|h t IH]; intros i x l' H j; [destruct i; discriminate|].
+  destruct i as [|i]; cbn [set_nth] in H.
+  - inversion H; subst. destruct j; reflexivity.
+  - destruct (set_nth t i x) as [t'|] eqn:E; [|discriminate]. inversion H; subst.
+    destruct j as [|j]; [reflexivity|]. cbn [nth_error Nat.eqb]. apply (IH _ _ _ E).
+Qed.
+
+Lemma store_from_input L e idx o e' vb pre suf :
+  from_input L e -> store e idx o = Some e' -> L = pre ++ vb ++ suf ->
+  match o with Some sv => seg_here vb sv | None => True end -> from_input L e'.
+Proof.
+  intros He Hst HL Ho. destruct o as [sv|]; cbn [store] in Hst; [|inversion Hst; subst; exact He].
+  intros j sv' Hj. rewrite (set_nth_nth_error _ _ _ _ Hst) in Hj.
+  destruct (Nat.eqb j (N.to_nat idx)); [|apply (He j sv' Hj)].
+  inversion Hj; subst sv'. exists pre, vb, suf. split; [exact HL|exact Ho].
+Qed.
+
+Lemma sm_skip_rest_suffix : forall f l u r, sm_skip_rest f l = Ok u r -> exists p, l = p ++ r.
+Proof.
+  induction f as [|f IH]; intros l u r H; [discriminate|]. cbn [sm_skip_rest] in H.
+  destruct l as [|c l']; [discriminate|]. destruct (c =? ch_e).
+  - inversion H; subst. exists [c]. reflexivity.
+  - destruct (skip_c (c :: l')) as [u' rest| | |] eqn:E; try discriminate.
+    apply skip_c_suffix in E. destruct E as (p & ->). apply IH in H. destruct H as (p2 & ->).
+    exists (p ++ p2). rewrite <- app_assoc. reflexivity.
+Qed.
+
+Lemma sm_list_faithful tbl L : small L -> forall f fk mk base e l x r,
+  sm_list tbl f fk mk base e l = Ok x r -> from_input L e -> suffix_of L l ->
+  from_input L (snd x) /\ suffix_of L r.
+Proof.
+  intros HL. induction f as [|f IH]; intros fk mk base e l x r H He Hsuf; [discriminate|].
+  cbn [sm_list] in H. destruct l as [|c l']; [discriminate|].
+  destruct (c =? ch_e).
+  { inversion H; subst. split; [exact He|eapply suffix_cons; exact Hsuf]. }
+  destruct (nth_error tbl fk) as [[idx k]|]; [|discriminate].
+  destruct (kat k (base + 2)) as [c2|]; [|discriminate]. destruct (kat mk (base + 1)) as [c1|]; [|discriminate].
+  destruct (read_value _ (c :: l')) as [o rest| | |] eqn:Er; try discriminate.
+  apply read_value_spec in Er; [|eapply suffix_small; eassumption]. destruct Er as (vb & El & Ho).
+  destruct (store e idx o) as [e'|] eqn:Es; [|discriminate].
+  assert (He' : from_input L e')
+    by (destruct Hsuf as (d & HLd); rewrite El in HLd; eapply store_from_input; eassumption).
+  assert (Hsr : suffix_of L rest)
+    by (destruct Hsuf as (d & HLd); rewrite El in HLd; exists (d ++ vb); rewrite <- app_assoc; exact HLd).
+  destruct (match nth_error tbl (S fk) with Some (_, k') => key_streq k' k | None => false end).
+  - eapply IH; eassumption.
+  - destruct (sm_skip_rest _ rest) as [u rest'| | |] eqn:Ek; try discriminate. inversion H; subst. cbn [snd].
+    split; [exact He'|]. apply sm_skip_rest_suffix in Ek. destruct Ek as (p & Ep). rewrite Ep in Hsr.
+    eapply suffix_app; exact Hsr.
+Qed.
+
+Lemma sm_loop_faithful tbl L : small L -> forall f st l e r,
+  sm_loop tbl f st l = Ok e r -> from_input L (s_ents st) -> suffix_of L l -> from_input L e.
+Proof.
+  intros HL. induction f as [|f IH]; intros st l e r H He Hsuf; [discriminate|].
+  cbn [sm_loop] in H. destruct l as [|c l']; [discriminate|].
+  destruct (c =? ch_e).
+  { destruct (s_stack st) as [|n stk'].
+    - inversion H; subst. exact He.
+    - eapply IH; [exact H|exact He|eapply suffix_cons; exact Hsuf]. }
+  destruct (c_string (c :: l')) as [rk rest| | |] eqn:Ecs; try discriminate.
+  apply c_string_suffix in Ecs. destruct Ecs as (ds & _ & Ecs).
+  assert (Hsr : suffix_of L rest).
+  { rewrite Ecs in Hsuf. replace (ds ++ ch_colon :: rk ++ rest) with ((ds ++ ch_colon :: rk) ++ rest) in Hsuf
+      by (rewrite <- app_assoc; reflexivity). eapply suffix_app; exact Hsuf. }
+  assert (Hskip : forall st', s_ents st' = s_ents st ->
+            match skip_c rest with
+            | Ok _ rest' => sm_loop tbl f st' rest'
+            | Reject => Reject | Fault => Fault | OutOfFuel => OutOfFuel
+            end = Ok e r -> from_input L e).
+  { intros st' Hst' H'. destruct (skip_c rest) as [u rest'| | |] eqn:Ek; try discriminate.
+    apply skip_c_suffix in Ek. destruct Ek as (p & Ep). rewrite Ep in Hsr.
+    eapply IH; [exact H'|rewrite Hst'; exact He|eapply suffix_app; exact Hsr]. }
+  destruct (_ <=? _); [apply (Hskip st eq_refl H)|].
+  destruct (buf_write _ _ rk) as [b1|]; [|discriminate].
+  destruct (set_nth b1 _ 0) as [b2|]; [|discriminate].
+  destruct (c_strlen b2) as [len|]; [|discriminate].
+  destruct (find_key _ _ _) as [| |pos base]; [discriminate|(refine (Hskip _ _ H); reflexivity)|].
+  destruct (nth_error tbl pos) as [[idx k]|]; [|discriminate].
+  destruct (kat k base) as [c0|]; [|discriminate].
+  destruct ((c0 =? 0) || (c0 =? ch_star)).
+  { destruct (if c0 =? 0 then _ else _) as [raw|]; [|discriminate].
+    destruct (read_value raw rest) as [o rest'| | |] eqn:Er; try discriminate.
+    apply read_value_spec in Er; [|eapply suffix_small; eassumption]. destruct Er as (vb & El & Ho).
+    destruct (store (s_ents st) idx o) as [e'|] eqn:Es; [|discriminate].
+    destruct Hsr as (d & HLd). rewrite El in HLd.
+    eapply IH; [exact H| |exists (d ++ vb); rewrite <- app_assoc; exact HLd].
+    cbn [s_ents]. eapply store_from_input; eassumption. }
+  destruct (c0 =? ch_colon).
+  { destruct rest as [|c1 rest1]; [discriminate|]. destruct (c1 =? ch_d).
+    - destruct (_ <=? _); [discriminate|].
+      destruct (set_nth b2 _ ch_colon) as [b3|]; [|discriminate].
+      destruct (set_nth b3 _ ch_colon) as [b4|]; [|discriminate].
+      eapply IH; [exact H|exact He|eapply suffix_cons; exact Hsr].
+    - (refine (Hskip _ _ H); reflexivity). }
+  destruct (c0 =? ch_lbr); [|discriminate].
+  destruct rest as [|c1 rest1]; [discriminate|]. destruct (c1 =? ch_l).
+  - destruct (sm_list tbl _ pos k base (s_ents st) rest1) as [[fk' e'] rest'| | |] eqn:El; try discriminate.
+    destruct (sm_list_faithful tbl L HL _ _ _ _ _ _ _ _ El He (suffix_cons _ _ _ Hsr)) as [He' Hs'].
+    eapply IH; [exact H|exact He'|exact Hs'].
+  - (refine (Hskip _ _ H); reflexivity).
+Qed.
+
+Theorem static_map_faithful tbl l e r : small l -> sm_read tbl l = Ok e r ->
+  forall i sv, nth_error e i = Some (Some sv) -> seg_of l sv.
+Proof.
+  intros Hs H. unfold sm_read, sm_read_into in H. destruct l as [|c l']; [discriminate|].
+  destruct (c =? ch_d); [|discriminate].
+  eapply (sm_loop_faithful tbl (c :: l') Hs); [exact H| |exists [c]; reflexivity].
+  intros i sv Hi. cbn [init_st s_ents] in Hi. unfold empty_entries in Hi.
+  apply nth_error_In in Hi. apply repeat_spec in Hi. discriminate.
+Qed.
